@@ -138,8 +138,9 @@ Prods(sym, rich) ==
     [] sym = "Value" ->
          {<<NT("ValueHead"), NT("ValueRest")>>}
     [] sym = "ValueHead" ->
+         \* (a call without arguments must not be followed by "(": CallNoArgText ends in a safe character)
          Seq1({X(wd) : wd \in Words}) \cup {<<X("("), NT("Balanced"), X(")")>>, <<NT("SQuoted")>>, <<NT("DQuoted")>>,
-          <<NT("MVarRef")>>, <<NT("Call")>>, <<NT("StrCall")>>, <<X("1")>>}
+          <<NT("MVarRef")>>, <<NT("CallArgs")>>, <<NT("Builtin")>>, <<NT("CallNoArgText")>>, <<NT("StrCall")>>, <<X("1")>>}
     [] sym = "ValueRest" ->
          {<<>>} \cup
          (IF rich THEN {<<X(" "), NT("ValueHead"), NT("ValueRest")>>, <<NT("ValuePiece"), NT("ValueRest")>>} ELSE {})
@@ -196,7 +197,8 @@ Prods(sym, rich) ==
          {<<NT("MVarRef")>>, <<NT("SQuoted")>>, <<NT("DQuoted")>>} \cup
          (IF rich THEN {<<NT("Call")>>, <<D("(", "LPAREN"), w, NT("Expr"), wb, D(")", "RPAREN")>>} ELSE {})
     [] sym = "NameExpr" ->
-         Seq1({T(n) : n \in Names}) \cup {<<NT("MVarName")>>, <<T("pre"), NT("MVarName")>>, <<T("&mv.x")>>}
+         Seq1({T(n) : n \in Names}) \cup {<<NT("MVarName")>>, <<T("pre"), NT("MVarName")>>, <<T("&mv.x")>>,
+          <<T("%mac2")>>, <<T("%m(a)")>>, <<T("pre%m")>>, <<T("%m"), NT("MVarName")>>}
     \* in a name a doubled terminator dot has no place
     [] sym = "MVarName" -> {<<T("&mv")>>, <<T("&mv.")>>, <<T("&&mv&i")>>, <<T("&&&mv")>>}
     [] sym = "TextExpr" ->
